@@ -342,6 +342,197 @@ class TakeIt(It):
         return self.inner.next(I)
 
 
+
+# ----------------------------------------------------------------------------------------
+# Loop summarisation: a MIR loop that walks the bytes / chars of a string with a variable-length payload part and only
+# appends to byte strings.  The loop body is interpreted once per possible item value (every byte of the payload's
+# effective charset; for chars: every ASCII value plus one symbolic non-ASCII character that must be copied through);
+# appends are logged instead of applied and become one payload part carrying a per-byte rewriting table ('tbl' escape).
+# Everything else the body might do (stores outside the loop frame's temporaries, loop-carried locals, calls of models
+# that are not on SUMM_OK, leaving the loop early, positional adaptors) fails closed with Unanalysable.
+SUMM_OK = re.compile(r"^(std::vec::Vec::<T, A>::(push|extend_from_slice)|std::string::String::(push|push_str|as_bytes|as_str)"
+                     r"|core::str::<impl str>::as_bytes|<std::(string::String|vec::Vec<T, A>) as std::ops::Deref>::deref"
+                     r"|<.* as std::iter::Iterator>::next|core::char::methods::<impl char>::(is_\w+|len_utf8|to_ascii_\w+)"
+                     r"|core::num::<impl u8>::(is_\w+|to_ascii_\w+)|<(char|u32|u16|u64|usize|i32) as std::convert::From<(u8|char)>>::from"
+                     r"|<u8 as std::cmp::PartialEq>::(eq|ne)|<char as std::cmp::PartialEq>::(eq|ne)|<&A as std::cmp::PartialEq<&B>>::(eq|ne))$")
+
+
+class SummCtx:
+    def __init__(self, I, it):
+        self.it = it
+        self.depth = len(I.frames)
+        self.frame = I.frames[-1]
+        self.local_ids = {id(b): i for i, b in enumerate(self.frame.locals)}
+        self.iter_no = 0
+        self.stamp = {}
+        self.exposed = set()
+        self.written = set()
+        self.log = []
+        self.tables = {}   # id(target) -> (target, {byte: bytes})
+        self.reps_done = []
+        self.cur = None    # current representative (int or Sym)
+        self.cur_bytes = ()  # the payload bytes the current representative stands for
+
+    def on_load(self, I, ref):
+        i = self.local_ids.get(id(ref.box))
+        if i is not None and self.stamp.get(i) != self.iter_no:
+            self.exposed.add(i)
+
+    def on_store(self, I, ref):
+        i = self.local_ids.get(id(ref.box))
+        if i is not None:
+            self.stamp[i] = self.iter_no
+            self.written.add(i)
+            return
+        for fr in I.frames[self.depth:]:
+            for b in fr.locals:
+                if b is ref.box:
+                    return
+        raise I.unanalysable("store to state outside the loop body while summarising a loop over a symbolic string")
+
+    def check_callee(self, I, f):
+        res = f.get("res") or {}
+        for p in (res.get("path"), f.get("path")):
+            if p and SUMM_OK.match(p):
+                return
+        raise I.unanalysable("call of %s inside a loop over a symbolic string (no summary for its effects)" % (f.get("path"),))
+
+    def append(self, I, target, parts):
+        self.log.append((target, list(parts)))
+
+    def begin(self, I, rep, rep_bytes):
+        self.iter_no += 1
+        self.cur = rep
+        self.cur_bytes = tuple(rep_bytes)
+        self.log = []
+
+    def end_iter(self, I):
+        per = {}
+        for target, parts in self.log:
+            out = per.setdefault(id(target), (target, []))[1]
+            for q in parts:
+                if q[0] == "lit":
+                    out.append(q[1])
+                elif q[0] == "u8" and isinstance(q[1], int):
+                    out.append(bytes([q[1] & 0xFF]))
+                elif q[0] == "self":
+                    out.append(None)
+                else:
+                    raise I.unanalysable("a loop over a symbolic string appends non-constant data (%r)" % (q[0],))
+        for tid, (target, out) in per.items():
+            tbl = self.tables.setdefault(tid, (target, {}))[1]
+            if None in out:
+                if out != [None]:
+                    raise I.unanalysable("a loop over a symbolic string rewrites non-ASCII characters")
+                for b in self.cur_bytes:
+                    tbl[b] = bytes([b])
+            else:
+                if len(self.cur_bytes) != 1:
+                    raise I.unanalysable("a loop over a symbolic string rewrites non-ASCII characters")
+                tbl[self.cur_bytes[0]] = b"".join(out)
+        self.reps_done.append(self.cur_bytes)
+        self.log = []
+
+    def finish(self, I, pay):
+        carried = self.exposed & self.written
+        if carried:
+            names = [self.frame.body["locals"][i].get("name", "_%d" % i) for i in sorted(carried)]
+            raise I.unanalysable("loop over a symbolic string carries state between iterations (%s)" % ", ".join(names))
+        allb = [b for bs in self.reps_done for b in bs]
+        for tid, (target, tbl) in self.tables.items():
+            for b in allb:
+                tbl.setdefault(b, b"")
+            q = Payload(pay.kind if target.is_str else "bytes", pay.charset, pay.len, pay.origin, pay.escapes + (("tbl", dict(tbl)),), meta=pay.meta)
+            q.id = pay.id
+            target.parts.append(("pay", q))
+
+
+def bytes_append(I, target, parts):
+    """append parts to a byte string (deferred while a loop over a symbolic string is being summarised)"""
+    s = getattr(I, "summ", None)
+    if s is not None:
+        for tg, _ in s.log:
+            pass
+        s.append(I, target, parts)
+    else:
+        target.parts.extend(parts)
+
+
+class PayIt(It):
+    """iterator over the bytes (mode 'b') or chars (mode 'c') of a byte string that has variable-length parts"""
+
+    def __init__(self, b, mode, by_ref):
+        self.parts = list(b.parts)
+        self.mode = mode
+        self.by_ref = by_ref
+        self.pos = 0
+        self.queue = []
+        self.reps = None
+
+    def _mk(self, v):
+        return some(Ref(Box_(v, "item"), ()) if self.by_ref else v)
+
+    def _reps_of(self, I, pay):
+        eff = set()
+        for c in pay.charset:
+            eff |= set(apply_escapes(bytes([c]) if c < 256 else chr(c).encode(), pay.escapes))
+        if self.mode == "b":
+            return [(c, (c,)) for c in sorted(eff)]
+        reps = [(c, (c,)) for c in sorted(eff) if c < 128]
+        hi = sorted(c for c in eff if c >= 128)
+        if hi:
+            reps.append((Sym("char_item", (), "char", 0x80, 0x10FFFF, attrs={"charset": frozenset(hi), "name": "non_ascii_char"}), tuple(hi)))
+        return reps
+
+    def next(self, I):
+        s = getattr(I, "summ", None)
+        if s is not None:
+            if s.it is not self:
+                raise I.unanalysable("nested iteration inside a summarised loop over a symbolic string")
+            if not getattr(I, "_mir_next", False):
+                raise I.unanalysable("symbolic string consumed element-wise by an iterator adaptor")
+            s.end_iter(I)
+            if self.reps:
+                rep, rb = self.reps.pop(0)
+                s.begin(I, rep, rb)
+                return self._mk(rep)
+            s.finish(I, self.parts[self.pos][1])
+            I.summ = None
+            self.pos += 1
+        while True:
+            if self.queue:
+                return self._mk(self.queue.pop(0))
+            if self.pos >= len(self.parts):
+                return none()
+            p = self.parts[self.pos]
+            if p[0] == "pay":
+                if not getattr(I, "_mir_next", False):
+                    raise I.unanalysable("symbolic string consumed element-wise by an iterator adaptor")
+                if p[1].kind == "str" and self.mode == "b" and False:
+                    pass
+                self.reps = self._reps_of(I, p[1])
+                if not self.reps:
+                    self.pos += 1
+                    continue
+                I.summ = s = SummCtx(I, self)
+                rep, rb = self.reps.pop(0)
+                s.begin(I, rep, rb)
+                return self._mk(rep)
+            if p[0] in ("lit", "u8", "int"):
+                elems = as_elems(I, Bytes([p]))
+                if self.mode == "c":
+                    if not all(isinstance(x, int) and x < 128 for x in elems):
+                        raise I.unanalysable("chars() over non-ASCII / symbolic literal part")
+                self.queue = list(elems)
+                self.pos += 1
+                continue
+            raise I.unanalysable("element-wise iteration over part %r" % (p[0],))
+
+
+def has_var_part(b):
+    return isinstance(b, Bytes) and any(p[0] not in ("lit", "u8", "int") for p in b.parts)
+
+
 class RangeIt(It):
     def __init__(self, lo, hi):
         self.lo, self.hi = lo, hi
@@ -571,12 +762,14 @@ def _is_empty(I, f, a):
 @model("std::vec::Vec::<T, A>::push")
 def _vec_push(I, f, a):
     v = deref(I, a[0])
+    if getattr(I, "summ", None) is not None and not isinstance(v, Bytes):
+        raise I.unanalysable("push on a non-byte vector inside a summarised loop")
     if hasattr(v, "push"):
         v.push(I, a[1])
     elif isinstance(v, VecObj):
         v.elems.append(a[1])
     elif isinstance(v, Bytes):
-        v.parts.append(("u8", a[1]))
+        bytes_append(I, v, [("u8", a[1])])
     else:
         raise I.unanalysable("Vec::push on %r" % type(v).__name__)
     return unit()
@@ -805,11 +998,14 @@ def to_bytes(I, v):
 def _extend_from_slice(I, f, a):
     v = deref(I, a[0])
     src = deref(I, a[1])
+    sm = getattr(I, "summ", None)
+    if sm is not None and (not isinstance(v, Bytes) or any(src is t for t, _ in sm.tables.values()) or any(src is t for t, _ in sm.log)):
+        raise I.unanalysable("extend_from_slice on %s inside a summarised loop" % type(v).__name__)
     if hasattr(v, "extend_from_slice"):
         v.extend_from_slice(I, src)
         return unit()
     if isinstance(v, Bytes):
-        v.parts.extend(to_bytes(I, src).parts)
+        bytes_append(I, v, to_bytes(I, src).parts)
         return unit()
     if isinstance(v, VecObj):
         v.elems.extend(as_elems(I, src))
@@ -1105,6 +1301,8 @@ def _slice_iter(I, f, a):
     v = deref(I, a[0])
     if hasattr(v, "iter"):
         return v.iter(I)
+    if has_var_part(v):
+        return PayIt(v, "b", True)
     return ListIt(as_elems(I, v), by_ref=True, owner=v)
 
 
@@ -1115,6 +1313,8 @@ def into_iter(I, v):
         t = deref(I, v)
         if hasattr(t, "iter"):
             return t.iter(I)
+        if has_var_part(t):
+            return PayIt(t, "b", True)
         if isinstance(t, Bytes):
             return ListIt(as_elems(I, t), by_ref=True)
         return ListIt(as_elems(I, t), by_ref=True, owner=t)
@@ -1125,6 +1325,8 @@ def into_iter(I, v):
         return RangeIter(v.fields[0], v.fields[1])
     if isinstance(v, Agg) and v.adt == "array":
         return ListIt(list(v.fields), by_ref=False)
+    if has_var_part(v):
+        return PayIt(v, "b", False)
     if isinstance(v, Bytes):
         return ListIt(as_elems(I, v), by_ref=False)
     if hasattr(v, "into_iter"):
@@ -1150,6 +1352,7 @@ class RangeIter(It):
 @model("<I as std::iter::IntoIterator>::into_iter", "<&'a std::vec::Vec<T, A> as std::iter::IntoIterator>::into_iter",
        "<std::vec::Vec<T, A> as std::iter::IntoIterator>::into_iter",
        "<&'a [T] as std::iter::IntoIterator>::into_iter",
+       "core::slice::iter::<impl std::iter::IntoIterator for &'a [T]>::into_iter",
        "<&'a [T; N] as std::iter::IntoIterator>::into_iter",
        "<&'a mut std::vec::Vec<T, A> as std::iter::IntoIterator>::into_iter")
 def _into_iter(I, f, a):
@@ -1166,6 +1369,16 @@ def _it(I, v):
     return v
 
 
+def _summ_chain_ok(it):
+    while True:
+        if isinstance(it, PayIt) or type(it).__name__ == "CharsIt":
+            return True
+        if isinstance(it, (CopiedIt, MapIt, FilterIt)):
+            it = it.inner
+            continue
+        return False
+
+
 @model("<std::slice::Iter<'a, T> as std::iter::Iterator>::next", "<std::iter::Rev<I> as std::iter::Iterator>::next",
        "<std::iter::Enumerate<I> as std::iter::Iterator>::next", "<std::iter::Take<I> as std::iter::Iterator>::next",
        "<std::vec::IntoIter<T, A> as std::iter::Iterator>::next", "<std::iter::Map<I, F> as std::iter::Iterator>::next",
@@ -1176,6 +1389,14 @@ def _it(I, v):
        "<std::collections::hash_map::Keys<'a, K, V> as std::iter::Iterator>::next")
 def _iter_next(I, f, a):
     it = _it(I, a[0])
+    if isinstance(it, It) and _summ_chain_ok(it):
+        # a MIR-level `next` on (a value-only adaptor chain over) a symbolic string: the loop is the caller's
+        prev = getattr(I, "_mir_next", False)
+        I._mir_next = True
+        try:
+            return it.next(I)
+        finally:
+            I._mir_next = prev
     return it.next(I)
 
 @model_re(r"^<std::(iter|slice|vec|str|collections|option|result)::[^ ]+( as|<.*> as) std::iter::Iterator>::next$")
